@@ -42,7 +42,7 @@ type burstObs struct {
 	Panicked string
 }
 
-const fenceTimeout = 3 * time.Second
+const fenceTimeout = 5 * time.Second
 
 func applyOp(c *resource.Collection, op string) error {
 	q := strings.Split(op, ":")
@@ -340,11 +340,11 @@ func (s session) monitor(m *lib.Monitor, obs []burstObs) {
 			return
 		}
 		if b.Blocked {
-			m.Violate(pre+"write-blocked", "a write did not return within 3s while an include-filtered Pull was open and (with backpressure) being read", s, "write returns", "blocked in burst "+strings.Join(b.Ops, " "))
+			m.Violate(pre+"write-blocked", "a write did not return within 5s while an include-filtered Pull was open and (with backpressure) being read", s, "write returns", "blocked in burst "+strings.Join(b.Ops, " "))
 			return
 		}
 		if !b.FenceOK {
-			m.Violate(pre+"fence-lost", "the ADD/REMOVE of an item whose inclusion flips (the fence id) was not delivered within 3s", s, "fence event", showChanges(b.Events))
+			m.Violate(pre+"fence-lost", "the ADD/REMOVE of an item whose inclusion flips (the fence id) was not delivered within 5s", s, "fence event", showChanges(b.Events))
 			return
 		}
 		events := b.Events
@@ -658,7 +658,7 @@ func runPull(f lib.Flags, res *lib.Result, drv *lib.Driver) {
 		"same histories with WithBackpressure(false): writes in bursts of 1-4 with nothing read meanwhile (the real mergeCollectionExcess merges), then drained to a fence; the delivered stream of each burst must be one of the streams the model produces over all recv/emit patterns (acceptor); model side = the delivered stream if accepted, else the model's set")
 	mon := res.Monitor("pull-fold", "on the same sessions, independent of the model: seed = filtered list; with backpressure the delivered stream is exactly the filtered edit script per write (in-in delivered as is, out-in ADD, in-out REMOVE, out-out nothing); every delivered event is well formed at the subscriber's view; after every burst fold(delivered) = filtered shadow map = List(WithInclude p); distinct = (predicate, burst)")
 	r := lib.NewRand(f.Seed)
-	n := f.N(1500, 20000)
+	n := f.N(6000, 40000)
 	stuck := 0
 	for i := 0; i < n; i++ {
 		bp := i%2 == 0
